@@ -623,3 +623,12 @@ package tchannel
 //@   label root-list-untouched-by-a-list-removal
 //@   ensures forall k string :: has(l.parent.peersByHostPort, k) <==> old(has(l.parent.peersByHostPort, k))
 //@   property C16
+
+// "listed under both" / "leaves ... when it closes": Connect lists an outbound
+// connection under the host:port it was asked to dial, and the close path finds
+// that peer again through the connection's recorded outbound host:port -- so the
+// handshake must record exactly the string it was given, not a resolved form.
+//@ func (ch *Channel) outboundHandshake(ctx context.Context, c net.Conn, outboundHP string, events connectionEvents) (conn *Connection, err error)
+//@   label connection-records-the-dialled-hostport
+//@   atcall newConnection arg4 == outboundHP
+//@   property C16
